@@ -510,16 +510,26 @@ class Shape(object):
                 OPTIONAL {?anyB $targetObjectsOf ?targetObjectsOf_F . }
             }
             """
-            values_clause, init_bindings = self.make_focus_nodes_sparql_values(
-                target_classes, implicit_classes, target_objects_of, target_subjects_of
+            # One query per combination of target values, each pre-bound through initBindings: rows of a
+            # VALUES block are lost when an OPTIONAL that follows it matches nothing for them (rdflib).
+            new_query = focus_query.replace("{VALUES_CLAUSE}", "")
+            binding_rows = itertools.product(
+                *(
+                    [(key, val) for val in (vals or ["UNDEF"])]
+                    for key, vals in (
+                        ("targetClass", target_classes),
+                        ("implicitClass", implicit_classes),
+                        ("targetSubjectsOf", target_subjects_of),
+                        ("targetObjectsOf", target_objects_of),
+                    )
+                )
             )
-            new_query = focus_query.replace("{VALUES_CLAUSE}", values_clause)
-            try:
-                resp = data_graph.query(new_query, initBindings=init_bindings)
-            except Exception as e:
-                print(new_query)
-                raise e
-            if len(resp) > 0:
+            for binding_row in binding_rows:
+                try:
+                    resp = data_graph.query(new_query, initBindings=dict(binding_row))
+                except Exception as e:
+                    print(new_query)
+                    raise e
                 for result_set in resp:
                     target_class_f, target_subjects_of_f, target_objects_of_f = result_set
                     if target_class_f is not None and target_class_f != "UNDEF":
